@@ -2,6 +2,7 @@ package gate
 
 import (
 	"fmt"
+	"strings"
 	"testing"
 
 	"go.minekube.com/gate/pkg/edition/java/proxy/zzverif/bfs"
@@ -174,6 +175,13 @@ func runSeq(h []sop) bfs.Outcome {
 
 func TestVerif(t *testing.T) {
 	vrt.Run(t, "C35", func(r *vrt.R) {
+		var peek struct {
+			Scenario string `json:"scenario"`
+		}
+		if r.ReplayInto(&peek) && strings.HasPrefix(peek.Scenario, "api-") {
+			replayAPI(r, t.TempDir())
+			return
+		}
 		var rp bfs.ReplayData[sop]
 		if r.ReplayInto(&rp) {
 			r.Eval(1)
@@ -205,5 +213,8 @@ func TestVerif(t *testing.T) {
 		res := bfs.Explore(bfs.Config[sop]{Name: "sequential", Ops: seqOps(), Depth: depth,
 			Shard: r.Shard, NShards: r.NShards, Deadline: r.DeadlineTime(), Run: runSeq})
 		res.Merge(r, "sequential")
+
+		// the API handler and the file reload path as entry points (api_test.go)
+		apiPart(r, t.TempDir())
 	})
 }
